@@ -3,7 +3,7 @@
     database (Transaction.Transact, then Commit when no result carries an
     error) and by [transact]; after every transaction the results, the whole
     database contents and the reference index are compared. *)
-From LOV Require Export Corr.Common Corr.Rows Db.Txn.
+From LOV Require Export Corr.Common Corr.Rows Db.Txn Db.NamedUUID.
 
 Inductive lop :=
 | LOInsert (t u : sym) (w : lrow)
@@ -38,7 +38,11 @@ Record tobs := mkTObs {
   t_refs : list oref
 }.
 
-Record case := mk { c_schema : schema; c_txns : list (list lop * tobs) }.
+(** an operation with the uuid-name of an insert, if any *)
+Notation nlop := (lop * option sym)%type.
+Definition mk_nop (o : nlop) : nop := mkNop (mk_op (fst o)) (snd o).
+
+Record case := mk { c_schema : schema; c_txns : list (list nlop * tobs) }.
 
 Definition find_T (S : schema) (t : sym) : table :=
   default (mkTable t [] [] true) (find_table S t).
@@ -83,34 +87,20 @@ Definition refs_ok (S : schema) (d : dbstate) (obs : list oref) : bool :=
   let m := model_refs S d in
   forallb (fun x => bool_decide (x ∈ obs)) m && forallb (fun x => bool_decide (x ∈ m)) obs.
 
-(** known-finding class 1 (C03/C06): while the transaction runs, two rows of
-    its working set hold the same value of a schema index (a transient
-    duplicate) and further operations follow.  The transaction cache keeps a
-    single row per schema-index value, so a later condition evaluated through
-    that index misses one of the rows. *)
-Fixpoint transient_dup (S : schema) (d0 d : dbstate) (ops : list op) : bool :=
-  match ops with
-  | [] => false
-  | o :: ops' =>
-    let '(r, d') := exec_op S d0 d o in
-    if is_err r then false
-    else (negb (db_unique S d') && negb (match ops' with [] => true | _ => false end))
-         || transient_dup S d0 d' ops'
-  end.
-
-Fixpoint check_txns (S : schema) (d : dbstate) (l : list (list lop * tobs)) : nat :=
+Fixpoint check_txns (S : schema) (d : dbstate) (l : list (list nlop * tobs)) : nat :=
   match l with
   | [] => 0
   | (lops, ob) :: l' =>
-    let ops := map mk_op lops in
-    let r := transact S d ops in
+    let nops := map mk_nop lops in
+    let ops := match expand nops with Ok o => o | _ => map n_op nops end in
+    let r := transact_named S d nops in
     let d' := commit d r in
     let t := first_fail [ (1, results_ok S ops (fst r) (t_results ob));
                           (2, state_ok d' (t_state ob));
                           (3, refs_ok S d' (t_refs ob)) ] in
     match t with
     | 0 => check_txns S d' l'
-    | _ => if transient_dup S d d ops then 101 else t
+    | _ => t
     end
   end.
 
